@@ -236,7 +236,7 @@ where
             crate::verif::point("Loop_Exit", 0, 0);
             self.thread_pool.stop();
             #[cfg(humphrey_verif)]
-            crate::verif::point("Pool_Stop", 0, 0);
+            crate::verif::point("Acc_PoolStopped", 0, 0);
         });
 
         if let Some(s) = self.shutdown {
